@@ -7,13 +7,24 @@ Executable; imports only `Model/Backends.lean` (file-system state `FS`, `fget/fp
 Correspondence with the Rust code:
 * `isCacheable`         — `FileType::is_cacheable` (`backend.rs`): snapshot and index files.
 * `cpath` / `ctmp`      — `Cache::path` = `<type dir>/<hex[0..2]>/<hex>`; temp name `<hex>-tmp-` in the same directory.
-* `cReadFull`           — `Cache::read_full`: `fs::read`, `NotFound` ⇒ `Ok(None)`; **no size check**: whatever is there is served.
+* cache directory state — regular files (`FS`) plus `dirs`, the paths at which a **directory** sits (a non-file object planted
+                          in the cache directory, e.g. at the entry path of an id: `hasDir`).  No operation of `cache.rs` removes
+                          or replaces a directory, so `dirs` is constant; a file recorded at a path of `dirs` (impossible on a
+                          real file system) is invisible to every operation.
+* `cReadFull`           — `Cache::read_full`: `fs::read`, `NotFound` ⇒ `Ok(None)` (miss); a directory ⇒ `Err` (`EISDIR`);
+                          **no size check**: whatever file is there is served.  `CachedBackend::read_full` logs an error and
+                          goes on like after a miss (`readFullThrough`).
 * `cReadPartial`        — `Cache::read_partial`: `NotFound` ⇒ miss; `seek` + `read_exact` ⇒ hit, or error when fewer than
-                          `length` bytes remain (a truncated entry) — `CachedBackend::read_partial` treats an error like a miss.
-* `cWrite`              — `Cache::write_bytes`: write `<hex>-tmp-`, rename to `<hex>`.
-* `cRemove`             — `Cache::remove` (`fs::remove_file`; all callers only log its error).
-* `cEntry` / `cList`    — `Cache::list_with_size`: regular files below `<type dir>` whose name is `L` **lower-case** hex
-                          characters and (fix) which lie at depth 2 in the directory named by their first two characters.
+                          `length` bytes remain (a truncated entry); a directory ⇒ error (`EISDIR` on `read`), but a hit with no
+                          bytes for `length = 0` (`read_exact` of an empty buffer does not call `read`).
+                          `CachedBackend::read_partial` treats an error like a miss (`readPartialThrough`).
+* `cWrite`              — `Cache::write_bytes`: write `<hex>-tmp-`, rename to `<hex>` (`cWriteFile`); a directory at the temp
+                          path: nothing written; a directory at the entry path: `rename` fails, **the temp file stays**.  All
+                          callers only log the error.
+* `cRemove`             — `Cache::remove` (`fs::remove_file`, fails on a directory; all callers only log its error).
+* `cEntry` / `cList`    — `Cache::list_with_size`: regular files (`is_file`: not directories) below `<type dir>` whose name is
+                          `L` **lower-case** hex characters and (fix) which lie at depth 2 in the directory named by their first
+                          two characters.
 * `removeNotInList`     — `Cache::remove_not_in_list`: a cache entry stays iff the repository listing has the same id with the
                           same size.  (Code: one loop over the listing, one over the rest of a `HashMap`; the removals act on
                           distinct paths and, after the fix, cannot fail with `NotFound`, so the order is immaterial.)
@@ -39,30 +50,59 @@ def isCacheName (L : Nat) (n : Name) : Bool := n.length = L && n.all (fun c => l
 def cpath (t : FileType) (id : Name) : Path := [t.dirname, id.take 2, id]
 def ctmp (t : FileType) (id : Name) : Path := [t.dirname, id.take 2, id ++ tmpSuffix]
 
-def cReadFull (c : FS) (t : FileType) (id : Name) : Option Bytes := fget c (cpath t id)
+/-- `dirs`: the paths of the cache directory at which a DIRECTORY sits (a non-file object planted there; no operation
+of `cache.rs` ever removes or replaces one: `remove_file` and `rename` onto it fail, the listing skips it). -/
+def hasDir (dirs : List Path) (p : Path) : Bool := dirs.contains p
 
+/-- outcome of a cache read: `Ok(Some(data))` / `Ok(None)` / `Err(_)` -/
 inductive PRes where
   | hit (b : Bytes)
   | miss
   | error
   deriving DecidableEq, Repr
 
-def cReadPartial (c : FS) (t : FileType) (id : Name) (off len : Nat) : PRes :=
-  match fget c (cpath t id) with
-  | none => .miss
-  | some d => if len = 0 ∨ off + len ≤ d.length then .hit ((d.drop off).take len) else .error
+/-- `Cache::read_full`: `fs::read` — a directory at the path: `EISDIR` (an error, not `NotFound`). -/
+def cReadFull (dirs : List Path) (c : FS) (t : FileType) (id : Name) : PRes :=
+  if hasDir dirs (cpath t id) then .error
+  else match fget c (cpath t id) with
+    | some d => .hit d
+    | none => .miss
 
-def cWrite (c : FS) (t : FileType) (id : Name) (d : Bytes) : FS :=
+/-- what a cache read can serve: the regular file at the entry path, unless a directory sits there -/
+def cHit (dirs : List Path) (c : FS) (t : FileType) (id : Name) : Option Bytes :=
+  if hasDir dirs (cpath t id) then none else fget c (cpath t id)
+
+/-- `Cache::read_partial`: on a directory `File::open` and `seek` succeed and `read_exact` fails with `EISDIR` — except
+for an empty buffer, which is "read" without a system call (a hit with no bytes). -/
+def cReadPartial (dirs : List Path) (c : FS) (t : FileType) (id : Name) (off len : Nat) : PRes :=
+  if hasDir dirs (cpath t id) then (if len = 0 then .hit [] else .error)
+  else match fget c (cpath t id) with
+    | none => .miss
+    | some d => if len = 0 ∨ off + len ≤ d.length then .hit ((d.drop off).take len) else .error
+
+/-- `Cache::write_bytes` with nothing in the way: write `<hex>-tmp-`, rename to `<hex>`. -/
+def cWriteFile (c : FS) (t : FileType) (id : Name) (d : Bytes) : FS :=
   fput (fdel (fput c (ctmp t id) d) (ctmp t id)) (cpath t id) d
 
-def cRemove (c : FS) (t : FileType) (id : Name) : FS := fdel c (cpath t id)
+/-- `Cache::write_bytes` (every caller only logs its error): a directory at the temp path — `open` fails, nothing is
+written; a directory at the entry path — the temp file is written, `rename` onto the directory fails and the temp
+file **stays** (no clean-up after a failed rename). -/
+def cWrite (dirs : List Path) (c : FS) (t : FileType) (id : Name) (d : Bytes) : FS :=
+  if hasDir dirs (ctmp t id) then c
+  else if hasDir dirs (cpath t id) then fput c (ctmp t id) d
+  else cWriteFile c t id d
 
-def cEntry (L : Nat) (t : FileType) (e : Path × Bytes) : Option (Name × Nat) :=
+/-- `Cache::remove`: `fs::remove_file` — fails on a directory (`EISDIR`), nothing changes. -/
+def cRemove (dirs : List Path) (c : FS) (t : FileType) (id : Name) : FS :=
+  if hasDir dirs (cpath t id) then c else fdel c (cpath t id)
+
+def cEntry (L : Nat) (dirs : List Path) (t : FileType) (e : Path × Bytes) : Option (Name × Nat) :=
   match e.1 with
-  | [d, sub, n] => if d = t.dirname ∧ isCacheName L n = true ∧ sub = n.take 2 then some (n, e.2.length) else none
+  | [d, sub, n] =>
+    if d = t.dirname ∧ isCacheName L n = true ∧ sub = n.take 2 ∧ hasDir dirs e.1 = false then some (n, e.2.length) else none
   | _ => none
 
-def cList (L : Nat) (c : FS) (t : FileType) : List (Name × Nat) := c.filterMap (cEntry L t)
+def cList (L : Nat) (dirs : List Path) (c : FS) (t : FileType) : List (Name × Nat) := c.filterMap (cEntry L dirs t)
 
 def sizeOf? (list : List (Name × Nat)) (id : Name) : Option Nat :=
   match list with
@@ -71,17 +111,18 @@ def sizeOf? (list : List (Name × Nat)) (id : Name) : Option Nat :=
 
 def keepEntry (list : List (Name × Nat)) (e : Name × Nat) : Bool := sizeOf? list e.1 == some e.2
 
-def removeAll (c : FS) (t : FileType) : List (Name × Nat) → FS
+def removeAll (dirs : List Path) (c : FS) (t : FileType) : List (Name × Nat) → FS
   | [] => c
-  | e :: rest => removeAll (cRemove c t e.1) t rest
+  | e :: rest => removeAll dirs (cRemove dirs c t e.1) t rest
 
-def removeNotInList (L : Nat) (c : FS) (t : FileType) (list : List (Name × Nat)) : FS :=
-  removeAll c t ((cList L c t).filter (fun e => !keepEntry list e))
+def removeNotInList (L : Nat) (dirs : List Path) (c : FS) (t : FileType) (list : List (Name × Nat)) : FS :=
+  removeAll dirs c t ((cList L dirs c t).filter (fun e => !keepEntry list e))
 
-/-- repository (an exact map, C20) + cache directory -/
+/-- repository (an exact map, C20) + cache directory: regular files `cache`, directories planted at `dirs` -/
 structure St where
   be : SpecMap
   cache : FS
+  dirs : List Path := []
 
 def beReadFull (be : SpecMap) (t : FileType) (id : Name) : Res Bytes :=
   match be (t, id) with
@@ -94,39 +135,47 @@ def beReadPartial (be : SpecMap) (t : FileType) (id : Name) (off len : Nat) : Re
   | some d => if off + len ≤ d.length then .ok ((d.drop off).take len) else .err
   | none => .err
 
+/-- `read_full` after the cache did not answer: the backend's answer; a successful one is written to the cache -/
+def readFullThrough (s : St) (t : FileType) (id : Name) : Res Bytes × St :=
+  match s.be (t, id) with
+  | some d => (.ok d, { s with cache := cWrite s.dirs s.cache t id d })
+  | none => (.err, s)
+
 def readFull (s : St) (t : FileType) (id : Name) : Res Bytes × St :=
   if isCacheable t then
-    match cReadFull s.cache t id with
-    | some d => (.ok d, s)
-    | none =>
-      match s.be (t, id) with
-      | some d => (.ok d, { s with cache := cWrite s.cache t id d })
-      | none => (.err, s)
+    match cReadFull s.dirs s.cache t id with
+    | .hit d => (.ok d, s)
+    | .miss => readFullThrough s t id
+    | .error => readFullThrough s t id      -- `Err(err) => warn!(…)`: logged, then like a miss
   else (beReadFull s.be t id, s)
+
+/-- `read_partial` after the cache did not answer: whole file from the backend, written to the cache, then sliced -/
+def readPartialThrough (s : St) (t : FileType) (id : Name) (off len : Nat) : Res Bytes × St :=
+  match s.be (t, id) with
+  | some d =>
+    let s' := { s with cache := cWrite s.dirs s.cache t id d }
+    if off + len ≤ d.length then (.ok ((d.drop off).take len), s') else (.err, s')
+  | none => (.err, s)
 
 def readPartial (s : St) (t : FileType) (id : Name) (cacheable : Bool) (off len : Nat) : Res Bytes × St :=
   if cacheable || isCacheable t then
-    match cReadPartial s.cache t id off len with
+    match cReadPartial s.dirs s.cache t id off len with
     | .hit b => (.ok b, s)
-    | _ =>
-      match s.be (t, id) with
-      | some d =>
-        let s' := { s with cache := cWrite s.cache t id d }
-        if off + len ≤ d.length then (.ok ((d.drop off).take len), s') else (.err, s')
-      | none => (.err, s)
+    | .miss => readPartialThrough s t id off len
+    | .error => readPartialThrough s t id off len   -- logged, then like a miss
   else (beReadPartial s.be t id off len, s)
 
 def writeBytes (s : St) (t : FileType) (id : Name) (cacheable : Bool) (d : Bytes) : St :=
-  { be := s.be.write (t, id) d,
-    cache := if cacheable || isCacheable t then cWrite s.cache t id d else s.cache }
+  { s with be := s.be.write (t, id) d,
+           cache := if cacheable || isCacheable t then cWrite s.dirs s.cache t id d else s.cache }
 
 def remove (s : St) (t : FileType) (id : Name) (cacheable : Bool) : St :=
-  { be := s.be.remove (t, id),
-    cache := if cacheable || isCacheable t then cRemove s.cache t id else s.cache }
+  { s with be := s.be.remove (t, id),
+           cache := if cacheable || isCacheable t then cRemove s.dirs s.cache t id else s.cache }
 
 /-- `list` is the backend's answer, returned unchanged; the cache is cleaned for cacheable types -/
 def listWithSize (L : Nat) (s : St) (t : FileType) (list : List (Name × Nat)) : St :=
-  { s with cache := if isCacheable t then removeNotInList L s.cache t list else s.cache }
+  { s with cache := if isCacheable t then removeNotInList L s.dirs s.cache t list else s.cache }
 
 end Rustic.Cache
 
